@@ -2,6 +2,9 @@ package main
 
 import (
 	"bufio"
+	"bytes"
+	"os/exec"
+	"strings"
 	"encoding/json"
 	"flag"
 	"fmt"
@@ -24,6 +27,18 @@ func init() {
 		return rig.EmitChild(*state, *nout, *nerr, *fail, *order)
 	}
 	cmds["nodeio"] = nodeioCmd
+	cmds["nodeio1"] = func(args []string) int {
+		log.SetOutput(io.Discard)
+		var sc rig.IOScenario
+		if err := json.NewDecoder(os.Stdin).Decode(&sc); err != nil {
+			fmt.Fprintln(os.Stderr, "INFRA", err)
+			return 2
+		}
+		os.Setenv("HOME", args[0])
+		self, _ := os.Executable()
+		json.NewEncoder(os.Stdout).Encode(rig.RunNodeIO(self, sc, args[0]))
+		return 0
+	}
 }
 
 // vh nodeio -scenarios file -out records
@@ -65,7 +80,21 @@ func nodeioCmd(args []string) int {
 	defer of.Close()
 	enc := json.NewEncoder(of)
 	for _, sc := range scs {
-		enc.Encode(rig.RunNodeIO(self, sc, base))
+		// one child process per scenario: the step runs inside this harness's own process image, and a defect in the
+		// output plumbing can crash it (concurrent writers on one buffer); that is a record, not the end of the sweep
+		in, _ := json.Marshal(sc)
+		c := exec.Command(self, "nodeio1", base)
+		c.Stdin = bytes.NewReader(in)
+		var ob, eb bytes.Buffer
+		c.Stdout, c.Stderr = &ob, &eb
+		err := c.Run()
+		var rec rig.Ev
+		if err == nil && json.Unmarshal(ob.Bytes(), &rec) == nil {
+			enc.Encode(rec)
+			continue
+		}
+		first := strings.SplitN(strings.TrimSpace(eb.String()), "\n", 2)[0]
+		enc.Encode(rig.CrashedIORecord(sc, first))
 	}
 	fmt.Printf("{\"records\": %d}\n", len(scs))
 	return 0
